@@ -85,7 +85,7 @@ P = {
          'Coq: trivial-path theorems; verified scene checker; correspondence'),
  'C07': ('proof', 'Proved: the four trait impls forward (subject, clipping) in the right order (by computation). Per run: rewritten operands '
          '(rotation, reversal, repeated vertices, closing point, part/hole permutation, Polygon vs MultiPolygon) give the same region (verified '
-         'checker) and, on the exact class, the same canonical boundary (edges by supporting line; not rings: how a boundary is cut into rings is not part of the property); the four impls return identical values. Proved (BoundaryRegion): the even-odd region of a set of rings depends only on the multiset of its edges, so another start vertex, ring order or ring direction of an operand denotes the same region.', '§7 C07',
+         'checker) and, on the exact class, the same canonical boundary (edges by supporting line; not rings: how a boundary is cut into rings is not part of the property); the four impls return identical values. Proved (BoundaryRegion): the even-odd region of a set of rings depends only on the multiset of its edges, so another start vertex, ring order, ring direction or an explicit closing point of an operand denotes the same region.', '§7 C07',
          'Coq: wrapper theorems + verified scene checker; representation group sampled'),
  'C08': ('proof', 'Translation and scaling clauses PROVED for all inputs over exact arithmetic: the abstraction theorem of the whole model '
          '(Paramcoq, binary parametricity, axiom-free) instantiated with the relations "differs by x -> k*x+tx, y -> k*y+ty" shows that the '
